@@ -136,3 +136,14 @@ let () =
       match v with
       | List [sh; c; s] -> List (List.map of_stmt (SR.read_stmts (shell_of sh) (cl (string_ c)) (cl (string_ s))))
       | _ -> raise (Shape "readscript args"))
+
+(* emitdata <shell> "command" <dfa> <ordmain> <ordsubs> ((id ...)...)
+     -> (ok ("kind" "text") ...) | (panic "site")            Model.EmitData.data_of_dfa (fish, zsh, pwsh) *)
+let () =
+  register "emitdata" (fun v ->
+      match v with
+      | List [sh; cmd; d; om; os; gs] ->
+          let groups = List.map (fun g -> List.map n_ (list_ g)) (list_ gs) in
+          res_to (fun bs -> List (Atom "ok" :: List.map (fun (k, t) -> List [ss k; ss t]) bs))
+            (Extracted.EmitData.data_of_dfa (shell_of sh) (cl (string_ cmd)) (cdfa_of d) (ord_of om) (ord_subs_of os) groups)
+      | _ -> raise (Shape "emitdata args"))
